@@ -224,21 +224,22 @@ def tryStep (f : Option (List Bool → St → StepOut)) (ts : List Bool) (s : St
     | (.error e, s1, ts1) => (some (.error e, s1), s1, ts1)
     | (.ok v, s1, ts1) => if v.truthy then (some (.ok v, s1), s1, ts1) else (none, s1, ts1)
 
-/-- `while not terminate(): ...` of connect(); fuel bounds the number of rounds -/
-def mainLoop (l : Live) : Nat → List Bool → St → Py RetVal × St
-  | 0, _, s => (.error .outOfFuel, s)
+/-- `while not terminate(): ...` of connect(); fuel bounds the number of rounds
+(`none`: fuel exhausted - never happens with fuel > ts.length, theorem `connect_total`) -/
+def mainLoop (l : Live) : Nat → List Bool → St → Option (Py RetVal × St)
+  | 0, _, _ => none
   | k + 1, ts, s =>
     match askTerm ts s with
-    | (true, s0, _) => (.ok .none, s0)
+    | (true, s0, _) => some (.ok .none, s0)
     | (false, s0, ts0) =>
       match tryStep (l.rdwr.map rdwrStep) ts0 s0 with
-      | (some r, _, _) => r
+      | (some r, _, _) => some r
       | (none, s1, ts1) =>
         match tryStep (l.llcp.map llcpStep) ts1 s1 with
-        | (some r, _, _) => r
+        | (some r, _, _) => some r
         | (none, s2, ts2) =>
           match tryStep (l.card.map cardStep) ts2 s2 with
-          | (some r, _, _) => r
+          | (some r, _, _) => some r
           | (none, s3, ts3) => mainLoop l k ts3 s3
 
 /-- how connect() ended -/
@@ -264,11 +265,8 @@ def keeps (r : Role) (su : Option (StartRes × Nat)) : Bool :=
   | Option.none => r != .card
   | some (res, _) => res == .proper
 
-/-- the option preparation phase (lines 513-571): events, surviving options -/
-def startupPhase (o : Opts) (s : St) : Py Live × St :=
-  let (ll, s1) := match o.llcp with
-    | Option.none => (Option.none, s)
-    | some l => (if keeps .llcp l.startup then some l else Option.none, startupEvent .llcp l.startup s)
+/-- option preparation of rdwr and card (lines 527-567), after llcp -/
+def startupRest (o : Opts) (ll : Option LlcpOpts) (s1 : St) : Py Live × St :=
   match o.rdwr with
   | some r =>
     let s2 := startupEvent .rdwr r.startup s1
@@ -283,6 +281,12 @@ def startupPhase (o : Opts) (s : St) : Py Live × St :=
      | Option.none => (.ok ⟨Option.none, ll, Option.none⟩, s1)
      | some c => (.ok ⟨Option.none, ll, if keeps .card c.startup then some c else Option.none⟩, startupEvent .card c.startup s1))
 
+/-- the option preparation phase (lines 513-571): events, surviving options -/
+def startupPhase (o : Opts) (s : St) : Py Live × St :=
+  match o.llcp with
+  | Option.none => startupRest o Option.none s
+  | some l => startupRest o (if keeps .llcp l.startup then some l else Option.none) (startupEvent .llcp l.startup s)
+
 def Live.isEmpty (l : Live) : Bool := l.rdwr.isNone && l.llcp.isNone && l.card.isNone
 
 /-- `ContactlessFrontend.connect(**options)` on an open device -/
@@ -293,7 +297,8 @@ def connect (o : Opts) (env : List Ans) (ts : List Bool) : Outcome × St :=
     if l.isEmpty then (.ret .none, s)
     else
       match mainLoop l (ts.length + 1) ts s with
-      | (.ok v, s1) => (.ret v, s1)
-      | (.error e, s1) => if isCaught e then (.caught e, s1) else (.raised e, s1)
+      | some (.ok v, s1) => (.ret v, s1)
+      | some (.error e, s1) => if isCaught e then (.caught e, s1) else (.raised e, s1)
+      | none => (.raised .outOfFuel, s)
 
 end NfcVerif.Clf
